@@ -210,6 +210,7 @@ type c06Run struct {
 	mu      sync.Mutex
 	ended   map[int]bool
 	ffRes   map[int]string
+	ffStop  map[int]context.CancelFunc // ForceFlush contexts (op `c<fid>` cancels)
 	sdRes   map[int]string
 	lastQ   int
 	pending sync.WaitGroup
@@ -305,7 +306,7 @@ func c06RunSched(capQ, batch, buf int, ops []string, win time.Duration) (cfg [3]
 	bp := NewBatchProcessor(exp, WithMaxQueueSize(capQ), WithExportMaxBatchSize(batch), WithExportBufferSize(buf),
 		WithExportInterval(time.Hour), WithExportTimeout(expTimeout))
 	cfg = [3]int{bp.q.cap, bp.batchSize, cap(bp.exporter.input)}
-	r := &c06Run{bp: bp, exp: exp, ended: map[int]bool{}, ffRes: map[int]string{}, sdRes: map[int]string{}, parked: map[string]chan struct{}{}}
+	r := &c06Run{bp: bp, exp: exp, ended: map[int]bool{}, ffRes: map[int]string{}, ffStop: map[int]context.CancelFunc{}, sdRes: map[int]string{}, parked: map[string]chan struct{}{}}
 	for _, op := range ops {
 		parkedOp := false
 		// forced schedules: `p?` arms a park at a hook and starts the call, `r?` releases it
@@ -411,13 +412,27 @@ func c06RunSched(capQ, batch, buf int, ops []string, win time.Duration) (cfg [3]
 			r.mu.Unlock()
 			if !dup {
 				r.pending.Add(1)
+				ctx, cancel := context.WithCancel(context.Background())
+				r.mu.Lock()
+				r.ffStop[fid] = cancel
+				r.mu.Unlock()
 				go func() {
 					defer r.pending.Done()
-					e := c06Res(bp.ForceFlush(context.Background()))
+					defer cancel()
+					e := c06Res(bp.ForceFlush(ctx))
 					r.mu.Lock()
 					r.ffRes[fid] = e
 					r.mu.Unlock()
 				}()
+			}
+		case op[0] == 'c':
+			// the context of ForceFlush <fid> expires (while its request / marker waits behind the gated exporter)
+			fid, _ := strconv.Atoi(op[1:])
+			r.mu.Lock()
+			cancel := r.ffStop[fid]
+			r.mu.Unlock()
+			if cancel != nil {
+				cancel()
 			}
 		}
 		out = append(out, r.settle(win))
@@ -526,6 +541,47 @@ func c06GenOps(r *vRand, n int) []string {
 	return ops
 }
 
+// c06GenFFTimeout: ForceFlush calls whose context expires while their records / marker are still queued behind the
+// gated (busy) exporter, followed by further emits and flushes (one of them may expire too), then the exporter
+// recovers. Export buffer sizes 1..3.
+func c06GenFFTimeout(r *vRand, capQ, batch, buf int) []string {
+	ops := []string{}
+	id, f := 1, 1
+	emit := func(n int) {
+		for ; n > 0; n-- {
+			ops = append(ops, "e"+strconv.Itoa(id))
+			id++
+		}
+	}
+	emit(batch) // first batch: inside the gated exporter
+	if r.Bool() {
+		emit(batch * (1 + r.Intn(buf))) // some batches buffered behind it
+	}
+	rounds := 2 + r.Intn(2)
+	for j := 0; j < rounds; j++ {
+		emit(1 + r.Intn(2))
+		ops = append(ops, "f"+strconv.Itoa(f))
+		if j < rounds-1 || r.Intn(3) == 0 {
+			ops = append(ops, "c"+strconv.Itoa(f))
+		}
+		f++
+	}
+	if r.Intn(4) == 0 {
+		ops = append(ops, "s1")
+	}
+	for j := 0; j < id+4; j++ {
+		if r.Intn(8) == 0 {
+			ops = append(ops, []string{"g-", "gc", "gd"}[r.Intn(3)])
+		} else {
+			ops = append(ops, "g+")
+		}
+	}
+	if r.Intn(3) == 0 {
+		ops = append(ops, "f"+strconv.Itoa(f), "g+", "g+")
+	}
+	return ops
+}
+
 // c06GenBacklog builds a backlog of more than two batches behind a gated exporter and a full export buffer, then
 // drains it at once with Shutdown (deterministic: the poll goroutine is stopped first, the flushed slice is one
 // request of several chunks) or ForceFlush (its request has several chunks whichever of poll loop / ForceFlush
@@ -618,13 +674,18 @@ func TestVerifC06Sched(t *testing.T) {
 		n := vN(300)
 		for i := 0; i < n; i++ {
 			if i%5 == 4 {
-				c, b, u := 4+r.Intn(3), 1+r.Intn(2), 1+r.Intn(2)
+				c, b, u := 4+r.Intn(3), 1+r.Intn(2), 1+r.Intn(3)
 				jobs = append(jobs, job{"backlog", c, b, u, c06GenBacklog(r, c, b, u)})
 				continue
 			}
 			if i%10 == 7 {
 				c, b, u := 3+r.Intn(3), 1+r.Intn(2), 1+r.Intn(2)
 				jobs = append(jobs, job{"timeout", c, b, u, c06GenTimeout(r, c, b, u)})
+				continue
+			}
+			if i%10 == 2 {
+				c, b, u := 3+r.Intn(4), 1+r.Intn(2), 1+r.Intn(3)
+				jobs = append(jobs, job{"fftimeout", c, b, u, c06GenFFTimeout(r, c, b, u)})
 				continue
 			}
 			jobs = append(jobs, job{"rnd", 1 + r.Intn(5), 1 + r.Intn(4), 1 + r.Intn(3), c06GenOps(r, 3+r.Intn(12))})
